@@ -1082,14 +1082,14 @@ class Exec:
             coll, kind = it, "keys"
         else:
             raise PyvcUnsupported(f"dict comprehension over {it!r}")
-        if kind == "values":
-            raise PyvcUnsupported("dict comprehension over .values()")
         mt = coll.ty
         k = z3.Const(fresh_name("dk"), mt.key.sort)
         ksym = Sym(mt.key, k)
         e2 = dict(env)
         if kind == "keys":
             self.assign(g.target, ksym, e2, st)
+        elif kind == "values":
+            self.assign(g.target, Sym(mt.val, mt.opt.val(z3.Select(coll.e, k))), e2, st)
         else:
             self.assign(g.target, (ksym, Sym(mt.val, mt.opt.val(z3.Select(coll.e, k)))), e2, st)
         indom = mt.opt.is_some(z3.Select(coll.e, k))
@@ -1140,7 +1140,31 @@ class Exec:
             # *every* key of the collection
             st = st.assume(z3.ForAll([k], z3.Implies(indom, z3.And(*extras))))
         if not (isinstance(kk, Sym) and kk.e.get_id() == k.get_id()):
-            raise PyvcUnsupported("symbolic dict comprehension with a computed key")
+            # computed key {f(x): g(x) for x in m...}: a fresh finite map R with  (1) every element's key is present
+            # (with value g when g does not depend on the element: colliding keys then agree),  (2) every key of R comes
+            # from an element (witness function)
+            if not isinstance(kk, Sym):
+                raise PyvcUnsupported("symbolic dict comprehension with a computed non-symbolic key")
+            vt = ty_of(vv)
+            rt = MapTy(kk.ty, vt)
+            R_ = z3.Const(fresh_name("dcomp"), rt.sort)
+            guard = z3.And(indom, z3_bool(c))
+            vv_e = coerce(vv, vt)
+
+            def mentions_k(x):
+                if x.get_id() == k.get_id():
+                    return True
+                return any(mentions_k(ch) for ch in x.children()) if z3.is_app(x) else z3.is_quantifier(x)
+            fact1 = rt.opt.is_some(z3.Select(R_, kk.e))
+            if not mentions_k(vv_e):
+                fact1 = z3.And(fact1, rt.opt.val(z3.Select(R_, kk.e)) == vv_e)
+            ek = z3.Const(fresh_name("ek"), kk.ty.sort)
+            w = z3.Function(fresh_name("dwit"), kk.ty.sort, mt.key.sort)
+            back = z3.substitute(z3.And(guard, kk.e == ek), (k, w(ek)))
+            st = st.assume(z3.ForAll([k], z3.Implies(guard, fact1)),
+                           z3.ForAll([ek], z3.Implies(rt.opt.is_some(z3.Select(R_, ek)), back)))
+            yield Sym(rt, R_), st
+            return
         vt = ty_of(vv)
         rt = MapTy(mt.key, vt)
         body = z3.If(z3.And(indom, z3_bool(c)), rt.opt.some(coerce(vv, vt)), rt.opt.none())
